@@ -216,6 +216,13 @@ def history_case(rng, name, mk, meta, ids):
     if phash(est) != h0:
         return dict(what='a fit / use history modified the constructor parameters (nested dictionaries or estimators included)',
                     estimator=name, history=ops)
+    if rng.random() < 0.3:
+        # the caller reuses one array object: fitted on it, then its contents are replaced in place
+        buf = data(rng, nu=nu)
+        if buf.shape == D1.shape:
+            do_fit(est, meta, buf, nu); ops.append('fit(buffer)')
+            buf[...] = D1; ops.append('buffer updated in place')
+            D1 = buf
     D1c = D1.copy()
     do_fit(est, meta, D1, nu)
     if not np.array_equal(D1, D1c):
